@@ -49,7 +49,17 @@ RULE = ('schedules = lists of thread ids consumed at every traced source line of
         '(get_chunk with truncated responses -> read retries with back-off, lost chunks, empty and missing buckets), v4_props '
         '(sensor-backed properties of a v4 data set); model-only cases: random template DAGs x wants x schedules x '
         'locked/unlocked (wire_205), property-map histories and schedules (206), server states x buckets x schedules (207), '
-        'interleavings of request programs and arbitrary event lists (208/209)')
+        'interleavings of request programs and arbitrary event lists (208/209).  Strengthening: sites applycal_vis / applycal_mixed '
+        '(three dask workers computing different blocks of the calibrated vis / weights / flags of a v4 data set opened with '
+        'applycal=K,B whose solutions change during the observation: the block functions over the one CorrectionParams object of '
+        'the graph, line by line) and s3b (three threads, requests with per-request retry budgets: truncated body -> used-up budget '
+        'stored for the second attempt, hung-up connection -> urllib3 retries with the budget the adapter holds, a retries=0 '
+        'override; data path get_chunk_or_default), each compared with what ONE thread gets; pre-emption windows: before / after '
+        'every dynamic occurrence of a write to state that outlives the call (aliases of shared objects included) and of a read of '
+        'what such a write writes, windows at write sites no model covers first and exhaustively, the rest spread evenly over the '
+        'source lines; two-level pre-emptions (three requests in flight) for s3b in the thorough tier or when the translated facts '
+        'about the pooled sessions differ from the model; model-only: block machines with / without memo / locked memo (wire_213), '
+        'retry-budget machine on interleaved request programs, event soups and a shared-adapter topology (211/212)')
 ASSUMPTIONS = ['CPython switches threads only between source lines of the traced files (line-level atomicity); '
                'C-level races inside numpy/dask/requests are not explored',
                'instrumented lock objects replace the threading.Lock/RLock attributes of the objects under test (a '
@@ -61,7 +71,11 @@ ASSUMPTIONS = ['CPython switches threads only between source lines of the traced
                'creating functions are pure functions of the values they fetch (observed on the real functions, not proved)',
                'verified-bucket theorem: the answer of the server about a bucket does not change during the run',
                'a stalled run of a site that talks to the loopback HTTP endpoint is repeated once under the same schedule '
-               'before it is reported']
+               'before it is reported',
+               'per-call-state theorem: the classification of the statements of the block functions (reads shared state / call-local '
+               '/ modelled write / returns fresh or argument) and the freshness analysis behind the write-site inventory are the '
+               "translator's (flow-insensitive ast analysis, fixtures/sharedwrites.py); numba kernels are one line each",
+               'retry budget: urllib3 reads adapter.max_retries once per attempt (HTTPAdapter.send); Retry objects are immutable']
 
 LOCKED_SAFE = 42
 
